@@ -1029,6 +1029,13 @@ impl HashColumn {
 		tables: TablesRef,
 		tier_count: &mut HashMap<usize, usize>,
 	) -> Result<()> {
+		if node.children.len() > u8::MAX as usize {
+			return Err(Error::InvalidInput(format!(
+				"Node has {} children, maximum is {}",
+				node.children.len(),
+				u8::MAX
+			)))
+		}
 		let data_size = packed_node_size(&node.data, node.children.len() as u8);
 
 		let table_key = TableKey::NoHash;
@@ -1135,6 +1142,13 @@ impl HashColumn {
 	) -> Result<(Vec<u8>, Vec<NodeChange>)> {
 		match change {
 			Operation::InsertTree(_key, node) => {
+				if node.children.len() > u8::MAX as usize {
+					return Err(Error::InvalidInput(format!(
+						"Node has {} children, maximum is {}",
+						node.children.len(),
+						u8::MAX
+					)))
+				}
 				let tables = self.tables.upgradable_read();
 
 				let values = self.as_ref(&tables.value);
